@@ -87,6 +87,8 @@ INFO = {
  'C14-m6': ("the idle worker uses cond.Signal instead of Broadcast", 'two or more goroutines parked in Wait when the pool drains: only one returns'),
  'C17-m5': ("do() reads its stop/done channels under the Worker mutex", 'the only holder calls done before the instance goroutine took its first step: the watcher holds the mutex waiting for an instance that can never start'),
 
+ 'C10-m5': ("three cooperating edits: resolve broadcasts only if the batch had waiters (stale snapshot); a Start runner releases the item lock before swapping the map entry; the final wake-up uses Signal", 'a Start runner, a Call registering in the unlock-to-swap gap, a second Call during the work, then quiescence: the second call is never answered and the key stays in the map'),
+
 }
 
 def main():
